@@ -107,6 +107,10 @@ func tryReplay(P *Program, fr *FuncResult, s *SiteResult, verifDir string) *Repl
 
 var cexMode = false
 
+// boundedMode (with cexMode): the bounded stand-in of check.go - loops unrolled without unwinding assertion, but
+// callees under contract stay modular
+var boundedMode = false
+
 // lastPredicted: result values predicted by the model of the last successful counterexample search
 var lastPredicted []string
 
